@@ -67,8 +67,12 @@ def get_expression_variables(
 
     if isinstance(context, LayeredMapping):
         out = set()
+        alias_targets = set((aliases or {}).values())
         for variable in variables:
-            variable.source = context.get_layer_name_for_key(variable.split(".", 1)[0])
+            # Names restored from back-quoted aliases are looked up verbatim
+            # (they may legitimately contain dots).
+            key = variable if variable in alias_targets else variable.split(".", 1)[0]
+            variable.source = context.get_layer_name_for_key(key)
             out.add(variable)
         return out
     return set(variables)
